@@ -30,6 +30,13 @@ ALK_SPELL = {
     "eq/l": ["eq/l", "eq/L"], "meq/l": ["meq/l", "meq/L"], "ueq/l": ["ueq/l"],
     "eq/kgs": ["eq/kgs"], "meq/kgs": ["meq/kgs"], "ueq/kgs": ["ueq/kgs"],
 }
+# spellings with a blank: only on a concentration line (cxxISolutionComp::read glues "kg " to the next word)
+COMP_SPELL = {
+    "Mol/kgw": ["mol/kg water", "Mol/Kg water"], "mMol/kgw": ["mmol/kg water", "millimoles/kg  water"], "mg/kgw": ["mg/kg water", "mg/KG H2O"],
+    "ug/kgw": ["ug/kg water"], "g/kgw": ["g/kg water"], "uMol/kgw": ["umol/kg water"],
+    "mg/kgs": ["mg/kg solution", "mg/kg soln"], "ug/kgs": ["ug/kg solution"], "Mol/kgs": ["mol/kg solution"], "mMol/kgs": ["mmol/kg solution"],
+    "g/kgs": ["g/kg solution"], "uMol/kgs": ["umol/kg solution"],
+}
 PREF = {"": 1.0, "m": 1e-3, "u": 1e-6}
 
 
@@ -184,7 +191,7 @@ def choose_expr(rng, db, elem, den, default_canon, per_elem=True):
         if elem == "Alkalinity":
             fam = fam + [c for c in ALK_SPELL if canon_parts(c)[2] == den]
         own = rng.choice(fam)
-        spelling = rng.choice((SPELL.get(own) or ALK_SPELL[own]))
+        spelling = rng.choice((SPELL.get(own) or ALK_SPELL[own]) + COMP_SPELL.get(own, []))
     eff = own or default_canon
     kind = canon_parts(eff)[1]
     as_f = None
@@ -215,6 +222,7 @@ def conv_case(rng, db):
     if water != 1.0 or rng.random() < 0.2:
         lines.append(f" -water {water!r}")
     comps = []
+    raw = []
     order = list(elems)
     rng.shuffle(order)
     for e in order:
@@ -226,15 +234,67 @@ def conv_case(rng, db):
         else:
             num = unit_number(db, e, n, eff, ex["as_f"], ex["gfw"])
             num = float(f"{num:.6g}")
-        lines.append(comp_line(e, num, ex["spelling"], ex["as_f"], ex["gfw"]))
+        cl = comp_line(e, num, ex["spelling"], ex["as_f"], ex["gfw"])
+        r = rng.random()
+        if r < 0.15:
+            cl = cl.replace(" as ", rng.choice([" AS ", " As ", "\tas  "])).replace(" gfw ", rng.choice([" GFW ", " gfm ", "  gfw\t"]))
+        elif r < 0.3:
+            cl = "  " + cl.replace(" ", rng.choice(["  ", "\t", " \t "]), 2)
+        if e == "C(4)" and rng.random() < 0.3:
+            cl = cl.replace(" C(4) ", " C(+4) ", 1)
+        lines.append(cl)
+        raw.append(cl)
         comps.append(dict(name=e, conc=num, own=ex["own"], alk=e.lower().startswith("alk"), gfw=ex["gfw"] or 0.0,
                           as_f=ex["as_f"] or "", elts=parse_formula(ex["as_f"]) if ex["as_f"] else [],
                           master=db.master_gfw(e)))
     lines += ["SELECTED_OUTPUT 1", " -reset false", "USER_PUNCH 1", f' 10 x = CALLBACK({2 if calc else 1}, 0, "tot")',
               " 20 PUNCH 1", "END"]
     desc = dict(default=default, dspell=dspell, ph=ph, water=water, density=density if density is not None else 1.0,
-                calc=calc, comps=comps, den=den)
+                calc=calc, comps=comps, den=den, lines=raw, cells=None)
     return "\n".join(lines) + "\n", desc
+
+
+def spread_case(rng, db):
+    """one SOLUTION_SPREAD row exercising convert_units: headings, an optional units row with `as` / gfw in the unit cells"""
+    den = rng.choice(["kgw", "kgw", "l", "kgs"])
+    default = rng.choice([c for c in SPELL if canon_parts(c)[2] == den])
+    dspell = rng.choice(SPELL[default])
+    ph = round(rng.uniform(5.0, 9.0), 3)
+    water = rng.choice([1.0, 1.0, 0.5, 2.0, 0.123])
+    density = round(rng.uniform(0.98, 1.15), 4) if den == "l" else None
+    elems = pick_elems(rng, 1, 5)
+    amounts = gen_amounts(rng, elems)
+    with_units_row = rng.random() < 0.7
+    heads, data, ucells, comps, cells = ["Number", "pH"], ["1", repr(ph)], ["", ""], [], []
+    for e in elems:
+        ex = choose_expr(rng, db, e, den, default, per_elem=with_units_row)
+        eff = ex["own"] or default
+        if not with_units_row:
+            ex["as_f"], ex["gfw"] = None, None
+        num = float(f"{unit_number(db, e, amounts[e], eff, ex['as_f'], ex['gfw']):.6g}")
+        u = (ex["spelling"] or "") + (f" as {ex['as_f']}" if ex["as_f"] else "") + (f" gfw {ex['gfw']!r}" if ex["gfw"] is not None else "")
+        u = u.strip()
+        if u and not ex["spelling"] and rng.random() < 0.0:
+            u = ""
+        heads.append(e)
+        data.append(repr(num))
+        ucells.append(u)
+        cells.append((e, repr(num), u if with_units_row else ""))
+        comps.append(dict(name=e, conc=num, own=ex["own"], alk=e.lower().startswith("alk"), gfw=ex["gfw"] or 0.0,
+                          as_f=ex["as_f"] or "", elts=parse_formula(ex["as_f"]) if ex["as_f"] else [], master=db.master_gfw(e)))
+    L = ["SOLUTION_SPREAD", f" -units {dspell}"]
+    if density is not None:
+        L.append(f" -density {density!r}")
+    if water != 1.0:
+        L.append(f" -water {water!r}")
+    L.append(" " + "\t".join(heads))
+    if with_units_row:
+        L.append(" " + "\t".join(ucells))
+    L.append(" " + "\t".join(data))
+    L += ["SELECTED_OUTPUT 1", " -reset false", "USER_PUNCH 1", ' 10 x = CALLBACK(1, 0, "tot")', " 20 PUNCH 1", "END"]
+    desc = dict(default=default, dspell=dspell, ph=ph, water=water, density=density if density is not None else 1.0,
+                calc=False, comps=comps, den=den, lines=None, cells=cells)
+    return "\n".join(L) + "\n", desc
 
 
 # ------------------------------------------------------------------------------------------------ metamorphic pairs
